@@ -482,6 +482,13 @@ func (t *Transaction) Wait(table string, timeout *int, where []ovsdb.Condition, 
 		expected = append(expected, info)
 	}
 
+	// without 'columns' all columns are compared (RFC 7047 5.2.6)
+	if len(columns) == 0 {
+		for column := range realTable.Columns {
+			columns = append(columns, column)
+		}
+	}
+
 	// a row matches an expected row if they are equal in every column of
 	// 'columns' that the expected row provides
 	matches := func(found *mapper.Info, i int) (bool, error) {
